@@ -12,12 +12,35 @@ def cutComment (s : String) : String :=
     let b := (a.splitOn " /*").head!
     b.trimAsciiEnd.toString
 
+/-- the track grammar of SMF 1.0 in full, i.e. with running status (a channel message may omit its status byte when it equals that
+    of the previous channel message; meta and SysEx events cancel it).  On tracks with explicit status bytes throughout — what the
+    unchanged writer produces — this is `decodeTrack`; it is what "the events of the file" means if the writer ever omits one. -/
+def decodeTrackRS : Nat → Option Nat → List Nat → Option (List (Nat × Msg))
+  | 0, _, _ => none
+  | f+1, last, bs =>
+    match decodeVlq 0 bs with
+    | none => none
+    | some (d, r) =>
+      let r1 := match r, last with
+        | b :: _, some st => if b < 128 then st :: r else r
+        | _, _ => r
+      match decodeMsg r1 with
+      | none => none
+      | some (m, r') =>
+        let last' := match r1 with
+          | st :: _ => if 128 ≤ st && st < 240 then some st else none
+          | [] => none
+        if isEot m then (if r' = [] then some [(d, m)] else none)
+        else match decodeTrackRS f last' r' with
+          | some rest => some ((d, m) :: rest)
+          | none => none
+
 /-- C20 predicate on the real dump text of real compiler output -/
 def specC20 (bin : List Nat) (text : String) : String :=
   match parseSmf bin with
   | none => "holds=1 note=not-a-compiler-output"
   | some (h, bodies) =>
-    let decoded := bodies.map (fun b => decodeTrack (b.length + 1) b)
+    let decoded := bodies.map (fun b => decodeTrackRS (b.length + 1) none b)
     if decoded.any Option.isNone then "holds=1 note=track-outside-the-smf-grammar"
     else
       let trs := decoded.map (fun o => o.getD [])
